@@ -4,7 +4,9 @@
    by the leaf de-duplication pass (field_deduplication.go), preceded by removeSelfAliasing, on
    fragment-free, directive-free documents.  [cmp_args = false] is the code before the repair
    (fieldsCanMerge compares name, alias and directives only); [cmp_args = true] the repaired one
-   (work/c04_fix_merge.patch).  No proofs here. *)
+   (work/c04_fix_merge.patch).  The defects repaired afterwards (work/c04_fix_*.patch) are kept as
+   flags of a [quirks] record: [old_quirks] is the code as it was at a156714, [go_quirks] the
+   repaired code the correspondence check runs against.  No proofs here. *)
 From Coq Require Import List NArith Bool.
 From Gv Require Import lib.Bytes lib.Gql lib.Exec.
 Import ListNotations.
@@ -36,13 +38,48 @@ Fixpoint go_value_eqb (a b : value) {struct a} : bool :=
        end) x y
   | _, _ => false
   end.
-(* ArgumentSetsAreEquals: same length, pairwise equal in order *)
-Fixpoint go_args_eqb (a b : list argument) : bool :=
+(* the defects of the admission sequence that were repaired after a156714, one flag each
+   ([true] = the defect is present) *)
+Record quirks := {
+  q_args_positional : bool;        (* ArgumentSetsAreEquals compared position by position *)
+  q_typename_skipped : bool;       (* FieldSelectionMerging returned at once for __typename *)
+  q_enum_nonscalar : bool;         (* ... filed enum-typed fields under the non-scalar requirements *)
+  q_composite_uncompared : bool;   (* ... never compared name/arguments of fields with a selection set *)
+  q_leaf_vs_composite : bool;      (* ... never compared a leaf field with a field with a selection set *)
+  q_kind_mismatch_dropped : bool;  (* ... did not record a field whose type kind differed from a requirement's *)
+  q_shape_unrelated : bool         (* ... did not compare the list / non-null wrappers of unrelated composite types *)
+}.
+Definition old_quirks : quirks :=
+  {| q_args_positional := true; q_typename_skipped := true; q_enum_nonscalar := true;
+     q_composite_uncompared := true; q_leaf_vs_composite := true; q_kind_mismatch_dropped := true;
+     q_shape_unrelated := true |}.
+Definition go_quirks : quirks :=
+  {| q_args_positional := false; q_typename_skipped := false; q_enum_nonscalar := false;
+     q_composite_uncompared := false; q_leaf_vs_composite := false; q_kind_mismatch_dropped := false;
+     q_shape_unrelated := false |}.
+
+Definition go_arg_eqb (x y : argument) : bool :=
+  bytes_eqb (fst x) (fst y) && go_value_eqb (snd x) (snd y).
+(* ArgumentSetsAreEquals before the repair: same length, pairwise equal in order *)
+Fixpoint go_args_eqb_positional (a b : list argument) : bool :=
   match a, b with
   | [], [] => true
-  | (k, v) :: a', (k', w) :: b' => bytes_eqb k k' && go_value_eqb v w && go_args_eqb a' b'
+  | x :: a', y :: b' => go_arg_eqb x y && go_args_eqb_positional a' b'
   | _, _ => false
   end.
+(* ArgumentSetsAreEquals (work/c04_fix_args-order-sensitive.patch): same length and, in both
+   directions, every argument is equal in value to the FIRST argument of its name on the other
+   side (argumentsAreContainedIn, slices.IndexFunc) *)
+Definition go_args_contained (a b : list argument) : bool :=
+  forallb (fun x => match assoc (fst x) b with Some w => go_value_eqb (snd x) w | None => false end) a.
+Definition go_args_eqb_byname (a b : list argument) : bool :=
+  Nat.eqb (length a) (length b) && go_args_contained a b && go_args_contained b a.
+
+Section Quirks.
+Variable Q : quirks.
+
+Definition go_args_eqb (a b : list argument) : bool :=
+  if q_args_positional Q then go_args_eqb_positional a b else go_args_eqb_byname a b.
 Definition go_dir_eqb (a b : directive) : bool :=
   bytes_eqb (d_name a) (d_name b) && go_args_eqb (d_args a) (d_args b).
 (* DirectiveSetsAreEqual: equal as multisets (greedy matching) *)
@@ -156,17 +193,15 @@ Definition norm_doc (cmp_args : bool) (d : document) : document :=
                                    op_dirs := op_dirs o; op_sels := norm_sels cmp_args (op_sels o) |}
                  | DFrag f => DFrag f
                  end) d.
-(* the repaired code and the code before the repair *)
-Definition merge_fields : document -> document := norm_doc true.
-Definition merge_fields_ignoring_args : document -> document := norm_doc false.
 
 (* ---- the validator's FieldSelectionMerging rule (operation_rule_field_selection_merging.go),
    as it runs on the normalised document: one walk in document order keeping "requirements" keyed
    by (path of response keys without inline fragments, response key).  Scalar-typed fields are
    compared with FieldsAreEqualFlat when their enclosing types can be the same object; for every
-   other field type only the types are compared -- and only when the two field TYPES are
-   "potentially the same object" (objects of one name, interfaces).  [None] = the rule reports an
-   error. *)
+   other field type the types are compared -- only when the two field TYPES are "potentially the
+   same object" (objects of one name, interfaces) -- and, since the repair, name and arguments when
+   the enclosing types can be the same object.  [None] = the rule reports an error.  The flags of
+   [Q] switch the repaired defects back on (see [quirks]). *)
 Section Overlap.
   Variable S : schema.
 
@@ -220,6 +255,15 @@ Section Overlap.
     | TNonNull a, TNonNull b => go_types_compat a b
     | _, _ => false
     end.
+  (* sameTypeWrappers (work/c04_fix_composite-shape-of-unrelated-types-unchecked.patch): the same lists
+     and non-nulls around whatever named types *)
+  Fixpoint same_wrappers (l r : ty) : bool :=
+    match l, r with
+    | TNamed _, TNamed _ => true
+    | TList a, TList b => same_wrappers a b
+    | TNonNull a, TNonNull b => same_wrappers a b
+    | _, _ => false
+    end.
   (* FieldsAreEqualFlat(left, right, false) without @stream *)
   Definition flat_equal (x y : selection) : bool :=
     match x, y with
@@ -244,7 +288,30 @@ Section Overlap.
                  end
     | None => None
     end.
-  Definition is_scalar_kind (k : option type_kind) : bool := match k with Some KScalar => true | _ => false end.
+  (* the leaf branch of EnterField: scalars, and (work/c04_fix_enum-fields-not-compared.patch) enums *)
+  Definition is_leaf_kind (k : option type_kind) : bool :=
+    match k with Some KScalar => true | Some KEnum => negb (q_enum_nonscalar Q) | _ => false end.
+  (* name and arguments of two fields, whatever their selections
+     (work/c04_fix_composite-fields-not-compared.patch) *)
+  Definition same_field (x y : selection) : bool :=
+    match x, y with
+    | SField _ n args _ _, SField _ n' args' _ _ => bytes_eqb n n' && go_args_eqb args args'
+    | _, _ => false
+    end.
+  (* the definition the rule finds for __typename: the meta field asttransform.TypeNameVisitor adds
+     to every object type except the subscription root (present in [S] when it was added), to
+     every interface and to every union (whose fields the schema dump does not carry) *)
+  Definition typename_fd : field_def :=
+    {| fd_name := s_typename; fd_args := []; fd_type := TNonNull (TNamed [83;116;114;105;110;103]); fd_dirs := [] |}.
+  Definition typename_field (encl : name) : option field_def :=
+    match find_type encl (s_types S) with
+    | Some td => match td_kind td with
+                 | KObject | KInterface => find_field s_typename (td_fields td)
+                 | KUnion => Some typename_fd
+                 | _ => None
+                 end
+    | None => None
+    end.
 
   Definition enter_field (path : list name) (encl : name) (s : selection) (fd : field_def) (key : name) (st : ovstate)
     : option ovstate :=
@@ -252,18 +319,27 @@ Section Overlap.
     let tn := named_of fty in
     let me := {| rq_path := path; rq_key := key; rq_sel := s; rq_ty := fty; rq_encl := encl |} in
     let same r := path_eqb (rq_path r) path && bytes_eqb (rq_key r) key in
-    if is_scalar_kind (gkind tn) then
+    if is_leaf_kind (gkind tn) then
+      (* work/c04_fix_leaf-vs-composite-not-compared.patch: the name is taken by a field with selections *)
+      if negb (q_leaf_vs_composite Q) && existsb same (snd st) then None else
+      (* (a leaf field whose type kind differs from a requirement's never passes the type
+         comparison, so the "different kind: not recorded" exit of the Go loop is dead here) *)
       if forallb (fun r =>
             negb (same r) ||
             ((negb (potentially_same (rq_encl r) encl) || flat_equal (rq_sel r) s) &&
              go_types_compat (rq_ty r) fty)) (fst st)
       then Some (fst st ++ [me], snd st) else None
     else
+      if negb (q_leaf_vs_composite Q) && existsb same (fst st) then None else
       if forallb (fun r =>
             negb (same r) ||
-            negb (potentially_same (named_of (rq_ty r)) tn) || go_types_compat (rq_ty r) fty) (snd st)
+            ((if potentially_same (named_of (rq_ty r)) tn then go_types_compat (rq_ty r) fty
+              else q_shape_unrelated Q || same_wrappers (rq_ty r) fty) &&
+             (q_composite_uncompared Q || negb (potentially_same (rq_encl r) encl) || same_field (rq_sel r) s))) (snd st)
       then
-        if existsb (fun r => same r && negb (kind_eqb (gkind (named_of (rq_ty r))) (gkind tn))) (snd st)
+        (* work/c04_fix_requirement-dropped-after-kind-mismatch.patch: every field is recorded now *)
+        if q_kind_mismatch_dropped Q &&
+           existsb (fun r => same r && negb (kind_eqb (gkind (named_of (rq_ty r))) (gkind tn))) (snd st)
         then Some st else Some (fst st, snd st ++ [me])
       else None.
 
@@ -276,12 +352,22 @@ Section Overlap.
         end in
     match s with
     | SField a fname _ _ sels =>
-      if bytes_eqb fname s_typename then walk (path ++ [response_name a fname]) [83;116;114;105;110;103] sels st
+      let key := response_name a fname in
+      if bytes_eqb fname s_typename then
+        (* work/c04_fix_typename-excluded-from-merging.patch: compared like any other leaf field when
+           the schema defines the meta field *)
+        match (if q_typename_skipped Q then None else typename_field encl) with
+        | None => walk (path ++ [key]) [83;116;114;105;110;103] sels st
+        | Some fd =>
+          match enter_field path encl s fd key st with
+          | None => None
+          | Some st' => walk (path ++ [key]) [83;116;114;105;110;103] sels st'
+          end
+        end
       else
         match go_field encl fname with
         | None => None
         | Some fd =>
-          let key := response_name a fname in
           match enter_field path encl s fd key st with
           | None => None
           | Some st' => walk (path ++ [key]) (named_of (fd_type fd)) sels st'
@@ -302,7 +388,7 @@ Section Overlap.
     | OpSubscription => [115;117;98;115;99;114;105;112;116;105;111;110]
     end.
   (* every operation and every fragment definition still present is walked with fresh requirements *)
-  Definition go_overlap_ok (d : document) : bool :=
+  Definition overlap_ok (d : document) : bool :=
     forallb (fun o => match root_type S (op_kind o) with
                       | Some rt => match ov_sels [op_root_name (op_kind o)] rt (op_sels o) ([], []) with
                                    | Some _ => true | None => false end
@@ -314,3 +400,12 @@ Section Overlap.
                       | None => false
                       end) (doc_frags d).
 End Overlap.
+End Quirks.
+
+(* the normaliser's merge step: the repaired code and the code before a156714 *)
+Definition merge_fields : document -> document := norm_doc go_quirks true.
+Definition merge_fields_ignoring_args : document -> document := norm_doc old_quirks false.
+(* the validator's FieldSelectionMerging rule: the repaired code (tied to Go by corr:C04/overlap)
+   and the rule as it was at a156714 *)
+Definition go_overlap_ok : schema -> document -> bool := overlap_ok go_quirks.
+Definition go_overlap_ok_pre_repair : schema -> document -> bool := overlap_ok old_quirks.
